@@ -275,6 +275,13 @@ inline void reportIssues(Ctx& C, const std::string& kop, const Issue& fatal, boo
   for (auto& is : soft) C.failKey(kop + "|leaf=" + is.leaf + "|c=" + is.clause, is.clause, is.detail);
 }
 
+inline bool hasStringOrKey(const MValue& m) {
+  if (m.kind == MValue::Str) return true;
+  for (auto& e : m.a) if (hasStringOrKey(e)) return true;
+  for (auto& kv : m.o) { (void)kv; return true; }
+  return false;
+}
+
 inline void checkJsonDoc(Ctx& C, const MValue& m, int sto, size_t fullLimit) {
   std::string key = docKey(m) + (sto ? "|sto=signed" : "");
   C.begin(key + "|op=serializeJson");
@@ -291,6 +298,19 @@ inline void checkJsonDoc(Ctx& C, const MValue& m, int sto, size_t fullLimit) {
   if (rc != compact.size()) C.failKey(kc + "|dst=std::string", "count", "returned " + std::to_string(rc) + " for " + std::to_string(compact.size()) + " bytes");
   if (rp != pretty.size()) C.failKey(kp + "|dst=std::string", "count", "returned " + std::to_string(rp) + " for " + std::to_string(pretty.size()) + " bytes");
 
+  // (a0) the same document built from linked strings (const char* values and keys) serializes to the same bytes
+  if (sto == 0 && hasStringOrKey(m)) {
+    JsonDocument dl;
+    if (build(dl.to<JsonVariant>(), m, true) && !dl.overflowed()) {
+      std::string c2, p2;
+      size_t r1 = serializeJson(dl, c2), r2 = serializeJsonPretty(dl, p2);
+      if (c2 != compact || r1 != c2.size()) C.failKey(kc + "|strings=linked", "linked-differs", "linked strings give '" + vis(c2.substr(0, 120)) + "' instead of '" + vis(compact.substr(0, 120)) + "'");
+      if (p2 != pretty || r2 != p2.size()) C.failKey(kp + "|strings=linked", "linked-differs", "pretty text differs when the strings are linked");
+      if (measureJson(dl) != compact.size() || measureJsonPretty(dl) != pretty.size()) C.failKey(kc + "|strings=linked", "linked-differs", "measureJson differs when the strings are linked");
+    } else {
+      C.failKey(kc + "|strings=linked", "build", "cannot build the document from linked strings");
+    }
+  }
   // (a) the compact text denotes the document: textual walk ...
   bool textOk;
   {
